@@ -120,6 +120,8 @@ def backend_corpus(seed, tier):
         gs.append(('mark%d' % i, gram.marker_grammar(rnd)))
     for i in range(6 if tier == 'quick' else 40):
         gs.append(('rrp%d' % i, gram.rr_prec_grammar(rnd)))
+    for i in range(4 if tier == 'quick' else 24):
+        gs.append(('nash%d' % i, gram.nonassoc_shared_grammar(rnd)))
     for i in range(1 if tier == 'quick' else 2):
         gs.append(('vlong%d' % i, gram.very_long_rule_grammar(rnd, odd=bool(i % 2))))
     for i in range(1 if tier == 'quick' else 4):
